@@ -173,17 +173,17 @@ structure CIter (σ : Type) where
   cluster : Option Nat
   err : Bool := false
 
-/-- `ClusterIterator::next`: `none` = iterator exhausted; `some (error e)` = the item `Some(Err(e))` -/
+/-- `ClusterIterator::next`: `none` = iterator exhausted. An error item `Some(Err(e))` is raised: every caller in the
+    library returns it at once (`r?`, `Some(Err(err)) => return Err(err)`), so the `err` latch of the Rust iterator is
+    never consulted again on those paths. -/
 def CIter.next (S : Strm σ) (ft : FatType) (it : CIter σ) : Prog (Option (Except Err Nat) × CIter σ) :=
   if it.err then pure (none, it)
   else match it.cluster with
     | none => pure (none, it)
-    | some cur =>
-      Prog.tryCatch (do
-        let (v, fat) ← get S ft it.fat cur
-        let nxt := match v with | .data n => some n | _ => none
-        pure (nxt.map Except.ok, { it with fat := fat, cluster := nxt }))
-        (fun e => pure (some (.error e), { it with err := true }))
+    | some cur => do
+      let (v, fat) ← get S ft it.fat cur
+      let nxt := match v with | .data n => some n | _ => none
+      pure (nxt.map Except.ok, { it with fat := fat, cluster := nxt })
 
 /-- `ClusterIterator::free`: an error item of `next()` is returned -/
 def CIter.freeLoop (S : Strm σ) (ft : FatType) : Nat → CIter σ → Nat → Prog (Nat × CIter σ)
